@@ -112,6 +112,12 @@ KvSplit ==    \* pure: returns the sub-vectors
      Step([name |-> "KvSplit"] @@ a, heap,
           Ret(OkOrVE(ok), IF ok THEN (IF a.nodes = <<>> THEN <<U>> ELSE SplitKV(U, a.nodes)) ELSE <<>>))
 
+KvConvert ==  \* kv.convert(cls): same knots in another number class; int only if every knot is integral
+  \E a \in ArgsOf("KvConvert", heap, depth) :
+     LET U  == heap[a.obj].U
+         ok == a.cls # "int" \/ \A i \in DOMAIN U : U[i][2] = 1 IN
+     Step([name |-> "KvConvert"] @@ a, heap, Ret(OkOrVE(ok), <<>>))
+
 KvCopy ==     \* copy is equal and independent (the harness mutates the copy)
   \E a \in ArgsOf("KvCopy", heap, depth) :
      Step([name |-> "KvCopy"] @@ a, heap, Ret("ok", heap[a.obj].U))
@@ -282,6 +288,13 @@ CvSetCtrlpoints ==   \* wrong count => ValueError, unchanged
      Step([name |-> "CvSetCtrlpoints"] @@ a,
           IF ok THEN CvOut(a.obj, Curve(c.U, a.points, c.W)) ELSE heap, RetRel(OkOrVE(ok), <<>>, "exact"))
 
+CvSetWeights ==      \* curve.weights = W : positive weights of the right length, else rejected and unchanged
+  \E a \in ArgsOf("CvSetWeights", heap, depth) :
+     LET c  == AsCurve(heap[a.obj])
+         ok == Len(a.weights) = Npts(c.U) /\ \A i \in DOMAIN a.weights : Sign(a.weights[i]) > 0 IN
+     Step([name |-> "CvSetWeights"] @@ a,
+          IF ok THEN CvOut(a.obj, Curve(c.U, c.P, a.weights)) ELSE heap, RetRel(IF ok THEN "ok" ELSE "Error", <<>>, "exact"))
+
 CvSetKnotvector ==   \* curve.knotvector = V
   \E a \in ArgsOf("CvSetKnotvector", heap, depth) :
      LET c == AsCurve(heap[a.obj]) V == a.kv IN
@@ -398,7 +411,7 @@ Next == /\ depth < MaxDepth
            \/ KvSetDegree \/ KvIOr \/ KvIAnd \/ KvOr \/ KvAnd \/ KvSplit \/ KvCopy
            \/ CvEval \/ FnBasis \/ CvKnotInsert \/ CvDegreeIncrease \/ CvSplit
            \/ CvKnotRemove \/ CvDegreeDecrease \/ CvClean \/ CvJoin \/ CvArith \/ CvScalar
-           \/ CvEq \/ CvCopy \/ CvFraction \/ CvSetCtrlpoints \/ CvSetKnotvector \/ CvSplitTake
+           \/ CvEq \/ CvCopy \/ CvFraction \/ CvSetCtrlpoints \/ CvSetWeights \/ CvSetKnotvector \/ CvSplitTake \/ KvConvert
            \/ KvGen \/ CvDerivate \/ CvIntegrate \/ MemoRequest \/ CvFitCurve \/ CvFitPoints \/ CvFitFunction
            \/ GeoProject \/ GeoIntersect \/ IntegrateFn \/ GeoLength
 
